@@ -737,6 +737,7 @@ def st_seq_ops(tier):
         st.tuples(st.just("set_code"), st.lists(raw, max_size=12), st.sampled_from(INT_DTYPES)),
         st.tuples(st.just("invalid_probe"), ints, st.integers(0, 3)),
         st.tuples(st.just("iter")),
+        st.tuples(st.just("restore"), st.sampled_from(["pickle", "deepcopy", "copy.copy"])),
     )
     kind = st.sampled_from(["gen_generic", "nuc", "prot", "gen_letter", "gen_big", "nuc"])
     return st.fixed_dictionaries(
@@ -1031,6 +1032,20 @@ def run_seq_ops(case):
                 other = GeneralSequence(env.alphabet_for(B), B[:1])
             fn = (lambda: cur + other) if op[1] == "right" else (lambda: other + cur)
             _must_reject(o, fn, "concatenation_incompatible_alphabets", "sum of sequences with incompatible alphabets", exc=(ValueError, _AlphabetError()))
+        elif name == "restore":
+            # the sequence continues its life as an object restored by pickling / deep copying
+            # (equal, but not identical, alphabet objects): all later operations must behave alike
+            import copy as _copy
+            import pickle as _pickle
+
+            if op[1] == "pickle":
+                cur = _pickle.loads(_pickle.dumps(cur))
+            elif op[1] == "deepcopy":
+                cur = _copy.deepcopy(cur)
+            else:
+                cur = _copy.copy(cur)
+            o.label("restored_by_" + op[1])
+            o.check(type(cur) is cls, "copying", f"type after {op[1]} is {type(cur).__name__}")
         elif name == "reverse":
             cur = cur.reverse(copy=op[1])
             model = model[::-1]
